@@ -80,7 +80,10 @@ Proof.
   set (ov := if v6 then w_ov6 w else match w_ov4 w with
                                       | Some n => if n =? 0 then None else Some (be4 n)
                                       | None => None end).
-  set (ov_ok := match ov with Some o => if v6 then blen o =? 16 else true | None => true end).
+  set (ov_ok := match ov with
+                | Some o => if v6 then (blen o =? 16) && negb (is_some (to4 o)) else true
+                | None => true
+                end).
   set (ph := match ov with Some o => o | None => d_ip d end).
   destruct ov_ok eqn:OK; cbn [negb]; [|discriminate].
   destruct (ip_len_ok addr) eqn:LA; cbn [negb]; [|discriminate].
@@ -90,7 +93,7 @@ Proof.
   assert (LP : ip_len_ok ph = true).
   { unfold ph, ov_ok in *. destruct ov as [o|] eqn:OV; [|exact WL].
     destruct v6.
-    - unfold ip_len_ok. rewrite OK. apply orb_true_r.
+    - apply andb_true_iff in OK as [OK _]. unfold ip_len_ok. rewrite OK. apply orb_true_r.
     - unfold ov in OV. destruct (w_ov4 w) as [n|]; [|discriminate].
       destruct (n =? 0); [discriminate|]. inversion OV. reflexivity. }
   rewrite LP, LA, transport_proto_ok.
@@ -326,3 +329,11 @@ Lemma clear_is_acted_on :
   handle_s2d clear_msg = DClear /\
   forall now m, detector_step now m clear_msg = [] /\ forall k, lookup k (detector_step now m clear_msg) = None.
 Proof. split; [reflexivity|]. intros; split; reflexivity. Qed.
+
+(* the same for the constructor called directly (util/station-debug does), on any registrant bytes *)
+Lemma constructor_accepted_and_faithful w s addr v6 r o :
+  sel_wf s -> new_reg w s addr v6 = Some r -> (o = ONew \/ o = OUpdate) ->
+  exists cl ph np,
+    ip_value (r_addr r) = Some cl /\ ip_value (r_phantom r) = Some ph /\ nproto_of (r_proto r) = Some np /\
+    handle_s2d (announce r o) = DAdd (expected_session r (station_lifetime (used_after o)) cl ph np).
+Proof. intros W N O. apply handle_announce; auto. eapply new_reg_ok; eauto. Qed.
